@@ -16,6 +16,7 @@ from typing import Dict, List, Optional, Set
 from ..kit import Kit, is_call, key, norm, atom_truthy_of
 from ..index import dotted, names_read, walk_shallow, unparse
 from ..escape import Escapes
+from ..flow import expr_sources
 from ..cfg import Node
 from .shared import pktsize_positive
 
@@ -233,6 +234,81 @@ def _awaited_locally(fi, call: ast.Call) -> bool:
     src = unparse(fi.node)
     return 'await asyncio.gather' in src or 'await asyncio.wait' in src or \
         'asyncio.as_completed' in src
+
+
+# ------------------------------------------------------------------- R4
+
+LOSSY = ('surrogateescape', 'surrogatepass')
+
+
+def _lossy_decodes(e: ast.AST):
+    for c in ast.walk(e):
+        if isinstance(c, ast.Call) and isinstance(c.func, ast.Attribute) \
+                and c.func.attr == 'decode':
+            hs = [a.value for a in list(c.args[1:]) +
+                  [kw.value for kw in c.keywords if kw.arg == 'errors']
+                  if isinstance(a, ast.Constant)]
+            if any(h in LOSSY for h in hs):
+                yield c
+
+
+def r4(k: Kit) -> None:
+    rep = k.rep
+    idx = k.idx
+    rep.rule('C10.R4', 'the reason text of every protocol error raised in '
+             'the transport / auth / channel / kex modules can be encoded '
+             'again: no value decoded with the surrogateescape / '
+             'surrogatepass handlers flows into the argument of a raise. '
+             '(_reap_task and _recv_data send the reason with String(), a '
+             'strict UTF-8 encode; a lone surrogate there raises '
+             'UnicodeEncodeError inside the handler that was closing the '
+             'connection, which then stays open and never notifies its '
+             'owner)')
+    n_raise = 0
+    for fi in idx.iter_funcs(['connection', 'channel', 'auth', 'kex_dh',
+                              'kex_rsa', 'kex', 'gss']):
+        raises = [x for x in ast.walk(fi.node) if isinstance(x, ast.Raise)
+                  and isinstance(x.exc, ast.Call) and x.exc.args]
+        if not raises:
+            continue
+        g = rd = None
+        for r in raises:
+            n_raise += 1
+            bad = list(_lossy_decodes(r.exc))
+            if not bad:
+                names = {nm for a in r.exc.args for nm in names_read(a)
+                         if '.' not in nm}
+                if names:
+                    g = g or k.cfg(fi)
+                    rd = rd or k.rd(fi)
+                    node = g.node_for(r)
+                    if node is not None:
+                        for a in r.exc.args:
+                            # f-strings are leaves for expr_sources: follow
+                            # each local name read inside the argument
+                            for nm in [x for x in ast.walk(a)
+                                       if isinstance(x, ast.Name)]:
+                                leaves, free = expr_sources(g, rd, node.id,
+                                                            nm)
+                                for lf in leaves:
+                                    bad += list(_lossy_decodes(lf))
+            if bad:
+                rep.violation('C10.R4', key(fi, f'raise {norm(r.exc.func)} '
+                                            'reason encodable'),
+                              f'`{norm(bad[0])[:70]}` feeds the reason of '
+                              f'`raise {norm(r.exc.func)}(...)`: for '
+                              'non-UTF-8 peer bytes the reason holds lone '
+                              'surrogates, String(reason) in the disconnect '
+                              'path raises UnicodeEncodeError, the exception '
+                              'escapes to the event loop and the connection '
+                              'is never closed', fi.loc(r))
+    rep.ok('C10.R4', 'raise sites scanned', f'{n_raise} raise sites with a '
+           'reason argument; none built from a lossy decode')
+    rep.floor('C10.R4', 'raise sites with a reason', n_raise, 100)
+    # positive control: the detector must fire on a known-bad fragment
+    ctl = ast.parse("raise E(x.decode('ascii', 'surrogateescape'))")
+    if not list(_lossy_decodes(ctl)):
+        rep.error('C10.R4', 'positive control', 'detector did not fire')
 
 
 # ------------------------------------------------------------------- R5
@@ -644,6 +720,62 @@ def r8(k: Kit) -> None:
                                   f'asyncssh/{short}.py:{u.lineno}')
     rep.floor('C10.R8', 'optional-import reads', n_uses, 5)
 
+# ------------------------------------------------------------------- R9
+
+def r9(k: Kit) -> None:
+    from ..absint import evaluate, Obj, NotEvaluable
+    rep = k.rep
+    idx = k.idx
+    rep.rule('C10.R9', 'line editor: SSHLineEditor._insert_printable '
+             'evaluated for every line length 0..max, every cursor position '
+             'and inserts shorter than, equal to and longer than the room '
+             'left: the input line never grows beyond max_line_length, and '
+             'text that fits is inserted whole at the cursor')
+    fi = k.func('editor.SSHLineEditor._insert_printable')
+    body = [st for st in fi.node.body if not (
+        isinstance(st, ast.Expr) and isinstance(st.value, ast.Constant))]
+    MAXL = 4
+    n = 0
+    bad = None
+    for ln in range(0, MAXL + 1):
+        line = 'abcd'[:ln]
+        for pos in range(0, ln + 1):
+            for data in ('x', 'xy', 'xyzwv'):
+                n += 1
+                val = {'self._line': line, 'self._pos': pos,
+                       'self._max_line_length': MAXL,
+                       'self._cursor': 0}
+                try:
+                    o = evaluate(idx, fi.module, body, val, {'data': data},
+                                 lambda nm, a, e: Obj('x'))
+                except NotEvaluable as exc:
+                    rep.error('C10.R9', key(fi, 'not-evaluable'), str(exc))
+                    return
+                new = o.env.get('self._line', line)
+                for nm, v in (o.stores if isinstance(o.stores, list) else []):
+                    if nm == 'self._line':
+                        new = v
+                if not isinstance(new, str):
+                    bad = bad or f'line value not concrete ({new!r})'
+                    continue
+                if len(new) > MAXL:
+                    bad = bad or (f'line of {ln} chars, cursor at {pos}, '
+                                  f'{len(data)} chars inserted, limit '
+                                  f'{MAXL}: line becomes {len(new)} chars')
+                room = MAXL - ln
+                want = line[:pos] + data[:room] + line[pos:]
+                if new != want:
+                    bad = bad or (f'line {line!r} cursor {pos} insert '
+                                  f'{data!r}: result {new!r}, expected '
+                                  f'{want!r}')
+    rep.count('eval.editor_insert_cases', n)
+    rep.check(bad is None, 'C10.R9', key(fi, 'line length bounded'),
+              f'{n} (length, cursor, insert) cases: len(line) <= '
+              'max_line_length',
+              f'{bad}: a client that moves the cursor to the start and '
+              'keeps typing grows the line (and the re-echo of it) without '
+              'bound', fi.loc(fi.node))
+
 
 def run(idx, rep, tier):
     k = Kit(idx, rep)
@@ -653,7 +785,9 @@ def run(idx, rep, tier):
     pktsize_positive(k, 'C10.R1')
     r2(k, tier)
     r3(k)
+    r4(k)
     r5(k, tier)
     r6(k)
     r7(k)
     r8(k)
+    r9(k)
